@@ -6,7 +6,7 @@ LEVEL = ('Contracts on the serialisation buffers of value.c (the byte stream tha
          'cif_buf_write appends exactly the source bytes, preserves what was written before, terminates (decreases clause on the growth '
          'loop) and fails cleanly; cif_buf_read delivers exactly the stored bytes.')
 UNDECIDED = ['SET_VALUE_PROPS / GET_VALUE_PROPS column mapping and UTF-16/UTF-8 transcoding inside SQLite',
-             'serialise/deserialise round trip of whole values (lists, tables): not yet under contract in this round']
+             'serialise/deserialise round trip of lists and tables (recursion + uthash)', 'texts longer than the bound of the round-trip jobs']
 
 
 def jobs():
@@ -19,6 +19,16 @@ def jobs():
         Job('buf_read', 'value_h.c', entry='harness_buf_read', enforce='cif_buf_read', tus=T, defines={'MAXB': 24, 'MAXL': 6}, thorough_defines={'MAXB': 64},
             reach=['read', 'nothing'], min_obligations=20, timeout=600,
             clauses=['returns min(available, max)', 'delivered bytes == stored bytes', 'position advanced by the count']),
+        Job('roundtrip_char', 'value_h.c', entry='harness_roundtrip_char', tus=T, functions=['cif_value_serialize', 'cif_value_deserialize', 'cif_buf_create'], plain=True, no_loop_contracts=True,
+            defines={'RTN': 3, 'MAXL': 6, 'MAXT': 8, 'MAXW': 6}, thorough_defines={'RTN': 6}, unwind=16, text_ui=True,
+            bounded='CHAR values with a text of exactly RTN (3 quick / 6 thorough) arbitrary code units, both quoted states, plus the unknown and not-applicable values; loops unwound completely',
+            reach=['char-roundtrip', 'unk-na-roundtrip'], min_obligations=30, timeout=1200, mem_gb=16,
+            clauses=['deserialise(serialise(v)) has the kind, text and quoted status of v', 'the read-back text lives in storage of its own']),
+        Job('roundtrip_numb', 'value_h.c', entry='harness_roundtrip_numb', tus=T, functions=['cif_value_serialize', 'cif_value_deserialize', 'cif_value_parse_numb'], plain=True, no_loop_contracts=True,
+            defines={'RTN': 3, 'MAXL': 6, 'MAXT': 8, 'MAXW': 6}, unwind=16, text_ui=True,
+            bounded='one concrete number text (-1.50e2(3)) with either quoted state: the lemma is about the wire format and the order of the deserialisation steps',
+            reach=['numb-roundtrip'], min_obligations=30, timeout=1200, mem_gb=16,
+            clauses=['a number is read back with its quoted status (the flag is read after the number text is parsed)', 'text, sign, digits, su digits and scale identical']),
     ]
 
 
